@@ -35,7 +35,7 @@ def export_vecs(ctx, m):
 
 def build_population(rng, absvecs, share_vectors=False):
     """abstract solutions -> real Individuals with concretised costs_signed; returns (individuals, projected solutions)."""
-    from artap.individual import Individual
+    Individual = absx.individual_class(rng)
     m = len(absvecs[0]["c"])
     maps = [absx.monotone_map(rng, 3) for _ in range(m)]
     mstyle = rng.randrange(3)
